@@ -352,7 +352,10 @@ class _VcRuntime:
         for gname, kind in spec.ghost_havoc.items():
             st["ghost"][gname] = make_value(kind, c.fresh_name("%s@G%d" % (gname, k)), c)
         for gname, kind in spec.fghost_havoc.items():
-            self.fg[gname] = make_value(kind, c.fresh_name("%s@F%d" % (gname, k)), c)
+            if isinstance(kind, tuple) and kind[0] == "object":
+                self.fg[gname] = kind[1](self.fg.get(gname), c, "%s@F%d" % (gname, k))
+            else:
+                self.fg[gname] = make_value(kind, c.fresh_name("%s@F%d" % (gname, k)), c)
         env = self._env(k, loc)
         for name, g in _ceval(spec.invariant, env, "loop %d invariant" % k):
             c.assume(g)
